@@ -179,3 +179,53 @@ Proof.
   - unfold mu. cbn. lia.
   - subst r. exact E.
 Qed.
+
+Lemma take_min_some k (s : bytes) : k <= len s -> exists ch r, take k s = Some (ch, r) /\ s = ch ++ r /\ len ch = k.
+Proof.
+  intros H. rewrite take_spec. destruct (N.leb_spec k (len s)); [|lia].
+  eexists _, _. split; [reflexivity|]. split; [now rewrite firstn_skipn|].
+  rewrite !len_eq in *. rewrite firstn_length. lia.
+Qed.
+
+(** too little input: the loop stops at the first empty read *)
+Lemma bulk_slice_short n bs : 0 < n -> len bs < n -> bulk slice_reader n bs = Err InvalidData MUnexpectedLength.
+Proof.
+  intros Hn Hshort. unfold bulk.
+  pose (Inv := fun st : N * N * list bytes * bytes =>
+                 let '(buf, pos, acc, s) := st in
+                 exists dn, bs = dn ++ s /\ pos = len dn /\ pos <= buf /\ buf <= n /\ 0 < buf).
+  pose (mu := fun st : N * N * list bytes * bytes => let '(_, pos, _, _) := st in n - pos).
+  apply (loop_fuel_inv_q (bulk_step slice_reader n) Inv mu
+           (fun r => r = Err InvalidData MUnexpectedLength)).
+  - intros [[[buf pos] acc] s] (dn & Hbs & Hpos & Hpb & Hbn & Hb0).
+    assert (Hlen : len bs = len dn + len s) by (rewrite Hbs; apply len_app).
+    unfold bulk_step. destruct (N.ltb_spec pos n) as [Hlt|Hge]; [|lia].
+    set (buf' := if pos =? buf then N.min (2 * buf) n else buf).
+    assert (Hb' : pos < buf' /\ buf' <= n /\ 0 < buf').
+    { unfold buf'. destruct (N.eqb_spec pos buf); lia. }
+    cbn [rd_some slice_reader].
+    destruct (take_min_some (N.min (buf' - pos) (len s)) s) as (ch & r & Et & Es & Lch); [lia|].
+    rewrite Et.
+    destruct ch as [|c0 ch'].
+    + right; right. eauto.
+    + left. eexists. split; [reflexivity|]. split.
+      * exists (dn ++ c0 :: ch'). repeat split.
+        -- rewrite Hbs, Es. now rewrite app_assoc.
+        -- rewrite len_app. lia.
+        -- rewrite Lch. lia.
+        -- lia.
+        -- lia.
+      * unfold mu. rewrite Lch. rewrite len_cons in Lch. lia.
+  - exists []. repeat split; try reflexivity; try lia. unfold CHUNK. lia.
+  - unfold mu. cbn. lia.
+Qed.
+
+Lemma bulk_slice_cases n bs : 0 < n ->
+  (exists a rest, bs = a ++ rest /\ len a = n /\ bulk slice_reader n bs = Ok (a, rest)) \/
+  (len bs < n /\ bulk slice_reader n bs = Err InvalidData MUnexpectedLength).
+Proof.
+  intros Hn. destruct (N.leb_spec n (len bs)) as [Hle|Hlt].
+  - left. destruct (take_min_some n bs Hle) as (a & rest & _ & E & L).
+    exists a, rest. repeat split; auto. subst bs. rewrite <- L. apply bulk_slice. lia.
+  - right. split; [assumption|]. now apply bulk_slice_short.
+Qed.
